@@ -70,7 +70,8 @@ func h256(b []byte) []byte { x := blake2b.Sum256(b); return x[:] }
 // block bytes m by my own reader. ok=false when m does not have the shape needed to extract
 // them (such a mutant is counted as "shape-unreadable", see judge).
 func projection(typ uint, m []byte) (p [][]byte, ok bool) {
-	root, err := space.Parse(m)
+	// ParsePrefix: the repository's decoder ignores bytes after the block item, so must I
+	root, _, err := space.ParsePrefix(m)
 	if err != nil || !root.IsArray() || len(root.Items) < 2 {
 		return nil, false
 	}
@@ -137,7 +138,7 @@ func merkle(items [][]byte) []byte {
 // and compares it with what my own reader finds in the header. Used on the real blocks
 // (must be true: pins the reference) and on accepted mutants (diagnostic only).
 func ownCommitmentMatches(typ uint, m []byte) (match bool, detail string, ok bool) {
-	root, err := space.Parse(m)
+	root, _, err := space.ParsePrefix(m)
 	if err != nil || !root.IsArray() || len(root.Items) < 2 || !root.Items[0].IsArray() {
 		return false, "unparseable", false
 	}
@@ -289,6 +290,19 @@ func (f *fixture) region(off int) string {
 			names := []string{"tx_payload", "ssc_payload", "dlg_payload", "upd_payload"}
 			for i, it := range body.Items {
 				if off >= it.Start && off < it.End && i < len(names) {
+					if i == 0 && it.IsArray() {
+						for _, pair := range it.Items {
+							if pair.IsArray() && len(pair.Items) == 2 {
+								if off >= pair.Items[0].Start && off < pair.Items[0].End {
+									return "tx_body"
+								}
+								if off >= pair.Items[1].Start && off < pair.Items[1].End {
+									return "tx_witnesses"
+								}
+							}
+						}
+						return "tx_payload-framing"
+					}
 					return names[i]
 				}
 			}
@@ -353,6 +367,11 @@ var (
 )
 
 func judge(f *fixture, m mutant) {
+	if bytes.Equal(m.bytes, f.Cbor) {
+		// e.g. swapping two equal neighbours: not a mutant
+		c.Eval("", "identical-to-original")
+		return
+	}
 	okSkip, _, pnSkip := decode(f.Type, m.bytes, true)
 	if pnSkip {
 		c.Eval("", "panic(validation-off)")
@@ -501,7 +520,7 @@ func (f *fixture) reencMutants(maxDepth int, emit func(mutant)) {
 			cp.Form = form
 			emit(mutant{kind: "REENC", off: -1,
 				desc:  fmt.Sprintf("%s:%s->%s", pathS(st.Path), kinds[cp.Major], space.FormNames[form]),
-				class: fmt.Sprintf("%s|%s->%s", f.segNameOf(st.Path[0]), kinds[cp.Major], space.FormNames[form]),
+				class: fmt.Sprintf("%s|%s->%s", f.region(st.Node.Start), kinds[cp.Major], space.FormNames[form]),
 				bytes: f.splice(st.Node, cp.Encode())})
 		}
 	}
@@ -543,7 +562,7 @@ func (f *fixture) treeMutants(maxDepth int, emit func(mutant)) {
 		}
 		where := "block-array"
 		if len(s.path) > 0 {
-			where = f.segNameOf(s.path[0]) + fmt.Sprintf("@d%d:%s", len(s.path), headKind(orig))
+			where = f.region(orig.Start) + fmt.Sprintf("@d%d:%s", len(s.path), headKind(orig))
 		}
 		build := func(op string, items []*space.Node) {
 			cp := *orig // shallow copy with the edited child list, spliced into the original bytes
@@ -1093,8 +1112,8 @@ func main() {
 			subPlan[f.Name] = "every offset x all 255 other values"
 			run(f, "SUB", subGen(f, 1, 0, true))
 		default:
-			subPlan[f.Name] = "every offset x 6 values"
-			run(f, "SUB", subGen(f, 1, 6, false))
+			subPlan[f.Name] = "every offset x 4 values"
+			run(f, "SUB", subGen(f, 1, 4, false))
 		}
 	}
 	for _, f := range fxs {
